@@ -280,6 +280,13 @@ EXPR_SLOTS = [
     '1 < <E> < 3', '1 and <E>', 'not <E>', '-<E>', '1 + <E>', '(<E> if 1 else 2)', '(1 if <E> else 2)', '(1 if 0 else <E>)',
     'try:\n  pass\nexcept <E>:\n  pass', '<E>', '[<E>]', '(<E>, 1)', '{1: {E}}', '{{E}}', 'x = [0]\nx[<E>] = 1',
     'x = [0]\nx[0] = <E>', 'for i in [1]:\n  pass\nelse:\n  <E>', 'print(1) if <E> else None', 'type X = <E>',
+    # positions AFTER a None placeholder in a list-valued AST field (Dict.keys after `**`,
+    # arguments.kw_defaults after a keyword-only parameter without default)
+    '{**{}, <E>: 1}', '{**{}, 1: <E>}', '{**{}, **{}, <E>: 1}', 'def f(*, a, b=<E>):\n  pass',
+    'def f(*, a, b, c=<E>):\n  pass', 'lambda *, a, b=<E>: 0', 'async def f(*, a, b=<E>):\n  pass',
+    'def f(a, /, b=<E>):\n  pass', 'def f(*a, k=<E>, **kw):\n  pass', 'class A(metaclass=<E>):\n  pass',
+    'print(*[], <E>)', 'print(**{}, end=<E>)', 'with CTX() as a, <E> as b:\n  pass', 'x = [0]\ndel x[0], x[<E>:]',
+    'match 1:\n  case 2:\n    pass\n  case _ if <E>:\n    pass', 'global g\ng = <E>', 'f"{1}{<E>!r:>{<E>}}"',
 ]
 STMT_SLOTS = [
     'if 1:\n<S>', 'if 0:\n  pass\nelse:\n<S>', 'if 0:\n  pass\nelif 1:\n<S>', 'for i in [1]:\n<S>',
@@ -290,7 +297,7 @@ STMT_SLOTS = [
     'match 1:\n  case 1:\n  <S2>', 'async def f():\n<S>', 'def f():\n  def g():\n  <S2>\n  g()\nf()',
     'class A:\n  def m(self):\n  <S2>\nA().m()', 'if 1:\n  if 1:\n  <S2>',
 ]
-INNER_EXPR = ['len("a")', '(lambda: 1)', '(w := 1)']
+INNER_EXPR = ['len("a")', '(lambda: 1)', '(w := 1)', 'NESTED()']
 INNER_STMT = ['x = 1', 'x = 1\nx += 1', 'x: int = 1', '(x := 1)', 'if 1:\n  pass', 'match 1:\n  case _:\n    pass',
               'for i in []:\n  pass', 'while 0:\n  pass', 'len("a")', 'try:\n  pass\nexcept ValueError:\n  pass',
               'try:\n  pass\nexcept* ValueError:\n  pass', 'assert True', 'raise ValueError()', 'class B:\n  pass',
@@ -370,10 +377,11 @@ def _first_code_line(tb):
   return None
 
 
-def reference_run(code):
+def reference_run(code, extra=None):
   """Plain execution of the same text in a fresh namespace (the property's reference)."""
   sentinel = []
   g = {'SENTINEL': sentinel, 'CTX': contextlib.nullcontext}
+  g.update(extra or {})
   orig = dict(g)
   tree = ast.parse(code)
   result_expr = False
@@ -555,6 +563,11 @@ class C19(Prop):
       reached.append('eval')
       return real_eval(*a, **k)
 
+    def nested():
+      # a program whose run-time error is itself a CodeError (raised by a nested evaluation on its
+      # line 2): the outer error must carry THAT error as its cause and the OUTER position
+      return coding.evaluate('1\n2 / 0')
+
     obs = {}
     slot_inside = None
     # The exception of a refused / failing program PROPAGATES THROUGH the permission scopes (it is
@@ -570,7 +583,7 @@ class C19(Prop):
         builtins.exec, builtins.eval, builtins.compile = exec_w, eval_w, compile_w
         try:
           entry = case.get('entry', 'evaluate')
-          gv = {'SENTINEL': sentinel, 'CTX': contextlib.nullcontext}
+          gv = {'SENTINEL': sentinel, 'CTX': contextlib.nullcontext, 'NESTED': nested}
           if entry == 'evaluate':
             out = coding.evaluate(code, global_vars=gv, permission=perm(case['explicit']),
                                   outputs_intermediate=True)
@@ -598,7 +611,7 @@ class C19(Prop):
       result = {'outcome': 'runs'}
     ref = None
     if case.get('tree') is not None:
-      ref = reference_run(code)
+      ref = reference_run(code, {'NESTED': nested})
     return {'model': {'result': result, 'slot_inside': slot_inside, 'slot_after': slot_after},
             'obs': obs, 'ref': ref}
 
